@@ -465,6 +465,10 @@ def run(ctx):
                         h.type is None or {norm(e_) for e_ in (h.type.elts if isinstance(h.type, ast.Tuple) else [h.type])} & {"ValueError", "Exception", "BaseException"}
                         for h in tr_.handlers)
                     fan_ok = fan_ok and caught
+    # (FanSpeed(<unknown>) raises only as long as no `_missing_` hook in the enum's hierarchy maps unknown values to a member)
+    fsc = prog.classes.get(f"{AC}.FanSpeed")
+    hooked = [k.qual for k in (prog.mro(fsc) if fsc is not None else []) if "_missing_" in k.methods]
+    fan_ok = fan_ok and not hooked
     ctx.count("mapped_attributes")
     ctx.ob("C11.d", us.qual, fan_ok, "fan speed: FanSpeed(raw) with raw-integer fallback when custom speeds are supported, else get_from_value", func=us.qual,
            file=us.module.rel, construct="self._fan_speed mapping", detail={"stored": show(v)[:200] if v else None},
@@ -504,6 +508,23 @@ def run(ctx):
     # complement for every byte sum (C12.a) - a formula that is off for one residue drops 1 report in 256
     from . import c12
     ctx.import_rules(c12, "t12", only=("C12.a",))
+    # every valid response of a refresh is applied: the _update_state call in refresh's loop is not skipped for some responses (an
+    # "unchanged payload" shortcut leaves attributes that apply() or a setter wrote in between)
+    rf = ctx.fn(f"{AC}.refresh")
+    rfs = summarize(prog, rf)
+    n_us = 0
+    for n_ in ast.walk(rf.node):
+        if isinstance(n_, ast.Expr) and isinstance(n_.value, ast.Call) and isinstance(n_.value.func, ast.Attribute) and n_.value.func.attr == us.name and n_ in rfs.ta.env_at:
+            loops_ = [l_ for l_ in ast.walk(rf.node) if isinstance(l_, (ast.For, ast.AsyncFor)) and any(x is n_ for x in ast.walk(l_))]
+            if not loops_:
+                continue
+            n_us += 1
+            head_pc = rfs.loops[loops_[-1]]["head"].pc if loops_[-1] in rfs.loops else ()
+            extra = [c_ for c_ in rfs.ta.env_at[n_].pc if c_ not in head_pc]
+            ctx.ob("C11.d", rf.qual, not extra, "refresh applies every response it collected (the _update_state call in the loop is unconditional)", func=rf.qual, file=rf.module.rel,
+                   node=n_, detail={"condition": [show(c_[0])[:80] for c_ in extra]},
+                   fail="refresh skips _update_state for some responses (`" + "; ".join(show(c_[0])[:60] for c_ in extra[:2]) + "`): a reported state is not exposed")
+    ctx.count("refresh_update_sites", n_us)
     ctx.require_min("body_check_rejections", 1)
     ctx.require_min("regions", 6)
     ctx.require_min("attributes", 19)
